@@ -93,7 +93,9 @@ func findModuleAndIsExternal(y Definition, prefix string) (*Module, bool, error)
 	sub, found := m.imports[prefix]
 	if !found {
 		if m.belongsTo != nil && m.belongsTo.prefix == prefix {
-			return m.parent.(*Module), true, nil
+			if parent, loadedFromModule := m.parent.(*Module); loadedFromModule {
+				return parent, true, nil
+			}
 		}
 		return nil, true, errors.New("module not found " + prefix)
 	}
